@@ -353,6 +353,11 @@ class Gen(object):
             return BooleanPoint(s(), s())
         if hint == 'unit':
             return self.unit2(stream) if t == 'V2' else self.unit3(stream)
+        if hint == 'nonzerocoords':
+            while True:
+                v = self.value(t, pycls, stream)
+                if all(c != 0 for c in v):
+                    return v
         if hint == 'nonzero':
             while True:
                 v = self.value(t, pycls, stream)
@@ -375,6 +380,9 @@ class Gen(object):
                 r.uniform(0.05, 20)
         if hint == 'pos':
             return abs(s()) + 0.25
+        if hint == 'dist':
+            return r.choice([0.0, 0.25, 1.0, 4.0, 16.0]) if stream == 'lattice' else \
+                r.uniform(0, 30)
         if hint == 'tol':
             return r.choice([0.0, 0.25, 1.0, 1e-3, 0.01])
         if hint == 'unitinterval':
@@ -437,6 +445,19 @@ class Gen(object):
             pl = self.value('PlaneS', 'Plane', stream)
             a = self.value('Arc2S', 'Arc2D', stream)
             return Arc3D(pl, a.r, a.a1, a.a2)
+        if isinstance(t, tuple) and t[0] == 'list' and (
+                t[1] not in ('V2', 'V3') or (hint or '').startswith('len')):
+            # generic list: hint 'len>=K' / 'len>=K;<element hint>' (default K = 0: the
+            # empty list is drawn too, it exercises the IndexError / ValueError paths)
+            lo, ehint = 0, None
+            if hint:
+                head, _, ehint = hint.partition(';')
+                lo = int(head[len('len>='):])
+                ehint = ehint or None
+            n = lo + r.choice([0, 0, 1, 1, 2, 2, 3, 4, 6])
+            return [self.value(t[1], pycls, stream, ehint) for _ in range(n)]
+        if t == 'I':
+            return r.randint(-5, 9)
         if isinstance(t, tuple) and t[0] == 'list' and t[1] in ('V2', 'V3'):
             if t[1] == 'V2':
                 return list(self.value('Poly2C', 'Polygon2D', stream).vertices)
@@ -507,6 +528,21 @@ def _lines_not_parallel(args):
 PRECONDITIONS = {'planes_not_parallel': _planes_not_parallel,
                  'line_not_parallel_to_plane': _line_not_parallel_to_plane,
                  'lines_not_parallel': _lines_not_parallel}
+
+
+def find_real_class(name):
+    """Class of the library by bare name (searched in the modules the kernels use)."""
+    for mn in ('geometry2d.pointvector', 'geometry3d.pointvector', 'geometry2d.line',
+               'geometry2d.ray', 'geometry3d.line', 'geometry3d.ray', 'geometry3d.plane',
+               'geometry2d.polygon', 'geometry2d.polyline', 'geometry3d.polyline',
+               'geometry3d.face', 'geometry2d.mesh', 'geometry3d.mesh',
+               'geometry3d.polyface', 'boolean', 'triangulation', 'geometry2d.arc',
+               'geometry3d.arc', 'geometry3d.sphere', 'geometry3d.cone',
+               'geometry3d.cylinder'):
+        mod = importlib.import_module('ladybug_geometry.' + mn)
+        if hasattr(mod, name):
+            return getattr(mod, name)
+    raise AttributeError(name)
 
 
 # ------------------------------------------------------------------ real-side calls
